@@ -36,6 +36,8 @@ func init() {
 	families["copy_boundary"] = genCopyBoundary
 	families["proc_history"] = genProcHistory
 	families["big_stored"] = genBigStored
+	families["pool_wrap"] = genPoolWrap
+	families["big_dv"] = genBigDv
 	families["big_freq"] = genBigFreq
 	families["giant_posting"] = genGiantPosting
 	families["pool_vocab"] = genPoolVocab
@@ -2323,17 +2325,35 @@ func genBigFreq(r *rand.Rand, i int) Scenario {
 // on the built, the loaded and both kinds of merged segment (C04, C06)
 func genBigStored(r *rand.Rand, i int) Scenario {
 	nbig := 5 + r.Intn(4)
+	variant := i % 3
+	if i >= 3 && variant == 2 {
+		variant = 1 // the 69 MiB block once per run
+	}
+	if variant == 2 {
+		nbig = 3
+	}
 	n := nbig + 3 + r.Intn(140)
 	b := make(Batch, n)
 	for d := 0; d < n; d++ {
 		id := []byte(fmt.Sprintf("g%03d", d))
 		doc := Doc{{Name: "_id", Len: 1, Stored: true, Value: B(id), Terms: []TermOcc{{Term: B(id), Freq: 1, Locs: []Loc{}}}}}
 		if d < nbig {
-			big := make([]byte, 1<<20+d*1000)
-			for k := range big {
-				big[k] = byte('a' + d)
+			var val Bytes
+			switch variant {
+			case 1: // incompressible: the segment itself exceeds a megabyte
+				val = PrngBlob(1000*i+d, 300000+d*1000)
+			case 2: // three values whose block exceeds 64 MiB uncompressed
+				val = make(Bytes, 23<<20+d*1000)
+				for k := range val {
+					val[k] = 'a' + d
+				}
+			default:
+				val = make(Bytes, 1<<20+d*1000)
+				for k := range val {
+					val[k] = 'a' + d
+				}
 			}
-			doc = append(doc, FieldInst{Name: "body", Len: 1, Stored: true, Value: B(big), Terms: []TermOcc{{Term: B([]byte("x")), Freq: 1, Locs: []Loc{}}}})
+			doc = append(doc, FieldInst{Name: "body", Len: 1, Stored: true, Value: val, Terms: []TermOcc{{Term: B([]byte("x")), Freq: 1, Locs: []Loc{}}}})
 		} else {
 			doc = append(doc, FieldInst{Name: "body", Len: 1, Stored: true, Value: B([]byte(fmt.Sprintf("small-%d", d))), Terms: []TermOcc{{Term: B([]byte("y")), Freq: 1, Locs: []Loc{}}}})
 		}
